@@ -482,6 +482,14 @@ func (i *interpreter) decide(cond *Term, site string) bool {
 		return false
 	}
 	tc := i.tc
+	// a condition the path has decided (or assumed) already - the same hash-consed term - is not decided again:
+	// a body executed twice on the same inputs (self-composition) re-evaluates the very same conditions
+	if i.decided[cond] {
+		return true
+	}
+	if i.decided[tc.Not(cond)] {
+		return false
+	}
 	n := len(i.decisions)
 	if n >= i.run.opts.MaxDecisions {
 		panic(abort{"budget", fmt.Sprintf("more than %d symbolic decisions on one path (at %s)", n, site)})
@@ -494,6 +502,7 @@ func (i *interpreter) decide(cond *Term, site string) bool {
 			c = tc.Not(cond)
 		}
 		i.pc = append(i.pc, c)
+		i.noteDecided(c)
 		i.tc.learn(c)
 		i.decisions = append(i.decisions, take)
 		if n == len(i.prefix)-1 {
@@ -520,6 +529,7 @@ func (i *interpreter) decide(cond *Term, site string) bool {
 				c = tc.Not(cond)
 			}
 			i.pc = append(i.pc, c)
+			i.noteDecided(c)
 			i.tc.learn(c)
 			i.decisions = append(i.decisions, take)
 			return take
@@ -545,9 +555,17 @@ func (i *interpreter) decide(cond *Term, site string) bool {
 		c = tc.Not(cond)
 	}
 	i.pc = append(i.pc, c)
+	i.noteDecided(c)
 	i.tc.learn(c)
 	i.decisions = append(i.decisions, take)
 	return take
+}
+
+func (i *interpreter) noteDecided(c *Term) {
+	if i.decided == nil {
+		i.decided = map[*Term]bool{}
+	}
+	i.decided[c] = true
 }
 
 func (i *interpreter) pushAlt(alt bool) {
@@ -593,6 +611,7 @@ func (i *interpreter) assume(c *Term, what string) {
 		panic(abort{"assume-false", what})
 	}
 	i.pc = append(i.pc, c)
+	i.noteDecided(c)
 	i.tc.learn(c)
 	if i.model != nil {
 		if v := i.tc.Eval(c, i.model, i.evalMemo()); v != nil && v.Sign() != 0 {
